@@ -659,9 +659,11 @@ func readUnion(tr *tokenReader) (Union, error) {
 			nextCommentLines = []string{}
 			nextCommentTags = []Tag{}
 
-			// This is a close curly-- we must advance past it or the union
-			// will read it and believe it is complete
-			tr.Next()
+			// The current token is the member's close curly: we must move off it or
+			// the union will read it and believe it is complete. Whatever follows it
+			// is looked at below, not discarded: only comments that end the member's
+			// own line are skipped, a comment on the next line documents the next member.
+			tr.keepNextToken = false
 			skipEndOfLineComments(tr)
 			optNewline(tr)
 
